@@ -450,6 +450,16 @@ def _mk_stat(name):
     return wrapper
 
 
+def _mk_fdop(name):
+    def wrapper(*args, **kwargs):
+        sim, a = _actor()
+        if a is not None:
+            sim.yield_point(a, "fdwrite:" + name, "")
+        return REAL[name](*args, **kwargs)
+    wrapper.__name__ = name
+    return wrapper
+
+
 def _sim_sleep(seconds):
     sim = ACTIVE
     a = sim.by_ident.get(_thread.get_ident()) if sim is not None else None
@@ -528,6 +538,8 @@ def _net_entry(fn_name):
         sim = ACTIVE
         a = sim.by_ident.get(_thread.get_ident()) if sim is not None else None
         if a is None:
+            if sim is not None and getattr(sim, "probe_active", False):
+                raise NetworkTouched(f"{fn_name} during an offline probe")
             raise NetworkEscape(f"{fn_name} called outside a simulated actor: {args[:1]}")
         if a.dead:
             raise Killed()
@@ -557,6 +569,10 @@ def install():
     io.open = _sim_open
     os.stat = _mk_stat("stat")
     os.lstat = _mk_stat("lstat")
+    for name in ("sendfile", "copy_file_range", "write", "pwrite", "writev", "ftruncate"):
+        if hasattr(os, name):
+            REAL[name] = getattr(os, name)
+            setattr(os, name, _mk_fdop(name))
     time.sleep = _sim_sleep
     urllib.request.urlretrieve = _net_entry("urlretrieve")
     urllib.request.urlopen = _net_entry("urlopen")
